@@ -76,9 +76,12 @@ type rCfg struct {
 }
 
 type rTrace struct {
-	Cfg rCfg   `json:"cfg"`
-	Ev  []rEv  `json:"ev"`
-	Err string `json:"err"`
+	Cfg     rCfg     `json:"cfg"`
+	Ev      []rEv    `json:"ev"`
+	Err     string   `json:"err"`
+	Workers []string `json:"workers,omitempty"` // cooperative pool schedules: the worker goroutines
+	MaxIter int64    `json:"maxiter"`
+	Arr     [][]any  `json:"arr,omitempty"` // cooperative pool schedules: every arrival [proc, point, n] in execution order
 }
 
 type rCase struct {
